@@ -271,7 +271,7 @@ js::Value Coverage::toJson() const {
 void Harness::beginOp(const Op* o) {
 	op = o;
 	if (world && index >= 0) { world->curNode = index; world->curOpKind = o ? o->kind : -1; }
-	trace.clear(); guards.clear(); selfs.clear();
+	trace.clear(); guards.clear(); selfs.clear(); views.clear();
 	occ.assign(size_t(shape->n) * M_COUNT * 2, 0);
 	rndIndex = 0; round = -1; roundSeen.clear(); roundHadEntry = false; roundPending.clear();
 	inActivationSeen = false;
@@ -371,6 +371,12 @@ void Harness::onCallback(int state, int method, int injected, const void* self, 
 		guards.push_back(std::move(g));
 	}
 
+	if (!injected && (method == M_ENTER || method == M_UPDATE) && (node->caps() & (CAP_PAYLOAD | CAP_HISTORY)) && world->wants("C14")) {
+		CtlView v; v.state = state; v.method = method;
+		if (method == M_ENTER) ctl.current(v.current);
+		else v.has = ctl.lastTransition(v.last);
+		views.push_back(std::move(v));
+	}
 	const size_t oi = (size_t(state) * M_COUNT + size_t(method)) * 2 + size_t(injected);
 	const int k = occ[oi]++;
 	bool noDefault = false;
